@@ -25,6 +25,13 @@ def witness(title_prefix):
 
 
 from props._session import SessionStream, grammar_failures, protocol_following
+from props._skiptable import handle_exception_table
+
+
+def tables(ctx):
+    # the error handler of the runner, executed on every exception class x constructor-argument shape: it must come back
+    # (an exception escaping it leaves a test / phase started and never ended) — obligation Generated/C07TablesCheck.lean
+    return [handle_exception_table()]
 
 
 class Sess(SessionStream):
@@ -55,7 +62,7 @@ class Run(PropRunStream):
     quick_cases = 330
     quick_seconds = 50
     p_interrupt = 0.3           # interrupted runs are ordinary cases since fix D11 (SuiteEnd / TestSessionEnd order holds under interrupt)
-    corpus = [witness("D11 "), witness("D1 "), witness("D3 ")] + W2.CONTROLS + W2.CONTROLS2
+    corpus = [witness("D11 "), witness("D1 "), witness("D3 ")] + W2.CONTROLS3 + [W2.EMPTY_STEP_DESCRIPTION, W2.EMPTY_STEP_IN_THREAD] + W2.CONTROLS + W2.CONTROLS2
 
 
 def streams(ctx):
